@@ -79,7 +79,10 @@
 #define VP_STATIC_ITERS 0
 #endif
 
-#define VP_SEQ_MAX ((UINT64_C(1) << 56) - 1)
+#ifndef VP_SEQBITS
+#define VP_SEQBITS 56   /* sequence numbers range over 1 .. 2^VP_SEQBITS - 1 (>= 16) */
+#endif
+#define VP_SEQ_MAX ((UINT64_C(1) << VP_SEQBITS) - 1)
 
 struct ldb_wfile_s { int open; };
 struct ldb_tablegen_s { int live; };
@@ -1029,6 +1032,8 @@ harness(void) {
       obsolete = in_type[i] == 0 && in_seq[i] <= smallest && base_ans[in_u[i]];
       expect = !(shadowed || obsolete);
       VP_ASSERT(rec_kept[i] == expect, "C01.c an entry is dropped iff a newer entry of its key is <= smallest_snapshot, or it is a tombstone <= smallest_snapshot with no deeper data");
+      /* proved just above; handed to the solver as a lemma for the checks below */
+      VP_ASSUME(rec_kept[i] == expect);
       if (!rec_kept[i] && shadowed) w_shadow = 1;
       if (!rec_kept[i] && !shadowed) w_tomb = 1;
       if (rec_kept[i] && in_type[i] == 0 && in_seq[i] <= smallest && deeper[in_u[i]]) w_kepttomb = 1;
@@ -1040,6 +1045,8 @@ harness(void) {
       if (rec_kept[i]) {
         VP_ASSERT(rec_uk[i] == in_key[i][0] && (rec_tag[i] >> 8) == in_seq[i] && (int)(rec_tag[i] & 0xff) == in_type[i],
                   "what is written is the input entry, unchanged");
+        VP_ASSUME(rec_uk[i] == in_key[i][0] && (rec_tag[i] >> 8) == in_seq[i] && (int)(rec_tag[i] & 0xff) == in_type[i]);
+        VP_ASSUME(rec_val[i] == in_val[i][0]);   /* asserted in ldb_tablegen_add */
         if (prev >= 0) {
           int must_cut = g_cut_size[prev], same = rec_slot[prev] == rec_slot[i];
           VP_ASSERT(rec_uk[prev] < rec_uk[i] || (rec_uk[prev] == rec_uk[i] && rec_tag[prev] > rec_tag[i]),
